@@ -155,33 +155,42 @@ Proof.
 Qed.
 
 (* ---------------- a solver that satisfies the hypothesis, and one that preserves a linear invariant ---------------- *)
-(* explicit Euler on the grid: row j+1 = row j + (t_{j+1} - t_j) * f(row j, t_j) *)
+(* explicit Euler on the grid for a system of dimension d: row j+1 = row j + (t_{j+1} - t_j) * f(row j, t_j)
+   (initial vectors of another dimension are outside the system: constant rows) *)
 Fixpoint euler_rows (f : vec -> Q -> vec) (x : vec) (t : Q) (ts : list Q) : list vec :=
   match ts with
   | [] => []
   | t' :: ts' => let x' := vadd x (smul (t' - t) (f x t)) in x' :: euler_rows f x' t' ts'
   end.
-Definition euler_solver (f : vec -> Q -> vec) : msolver :=
-  fun x0 ts => match ts with [] => [] | t0 :: ts' => x0 :: euler_rows f x0 t0 ts' end.
+Definition euler_solver (d : nat) (f : vec -> Q -> vec) : msolver :=
+  fun x0 ts => if Nat.eqb (length x0) d then match ts with [] => [] | t0 :: ts' => x0 :: euler_rows f x0 t0 ts' end
+               else map (fun _ => x0) ts.
 (* the right-hand side returns as many components as the state has (true of every dfunc of analytic.py) *)
-Definition shape_preserving (f : vec -> Q -> vec) : Prop := forall x t, length (f x t) = length x.
+Definition shape_preserving (d : nat) (f : vec -> Q -> vec) : Prop := forall x t, length x = d -> length (f x t) = d.
+
+Lemma nth_map_const {A B} (c : B) (l : list A) j d : (j < length l)%nat -> nth j (map (fun _ => c) l) d = c.
+Proof. revert j. induction l as [|a l IH]; intros j Hj; cbn in Hj; [lia|]. destruct j; cbn; [reflexivity|apply IH; lia]. Qed.
 
 Lemma euler_rows_length f x t ts : length (euler_rows f x t ts) = length ts.
 Proof. revert x t. induction ts as [|t' ts IH]; intros; cbn; [reflexivity|]. rewrite IH. reflexivity. Qed.
 
-Lemma euler_rows_width f : shape_preserving f -> forall ts x t j, (j < length ts)%nat -> length (nth j (euler_rows f x t ts) []) = length x.
+Lemma euler_rows_width d f : shape_preserving d f -> forall ts x t j, length x = d -> (j < length ts)%nat -> length (nth j (euler_rows f x t ts) []) = d.
 Proof.
-  intros SP ts. induction ts as [|t' ts IH]; intros x t j Hj; cbn in Hj; [lia|]. cbn [euler_rows].
-  assert (W : length (vadd x (smul (t' - t) (f x t))) = length x) by (rewrite vadd_length, smul_length, SP; lia).
-  destruct j as [|j]; cbn [nth]; [exact W|]. rewrite IH by lia. exact W.
+  intros SP ts. induction ts as [|t' ts IH]; intros x t j Hx Hj; cbn in Hj; [lia|]. cbn [euler_rows].
+  assert (W : length (vadd x (smul (t' - t) (f x t))) = d) by (rewrite vadd_length, smul_length, SP, Hx by exact Hx; lia).
+  destruct j as [|j]; cbn [nth]; [exact W|]. apply IH; [exact W|lia].
 Qed.
 
-Lemma euler_solver_ok f : shape_preserving f -> msolver_ok (euler_solver f).
+Lemma euler_solver_ok d f : shape_preserving d f -> msolver_ok (euler_solver d f).
 Proof.
-  intros SP x0 ts. destruct ts as [|t0 ts]; cbn [euler_solver].
-  - split; [reflexivity|]. split; [intros j Hj; cbn in Hj; lia|]. intros H; congruence.
-  - split; [cbn; rewrite euler_rows_length; reflexivity|]. split; [|reflexivity].
-    intros [|j] Hj; cbn [nth]; [reflexivity|]. apply euler_rows_width; [exact SP|cbn in Hj; lia].
+  intros SP x0 ts. unfold euler_solver. destruct (Nat.eqb (length x0) d) eqn:E.
+  - apply Nat.eqb_eq in E. destruct ts as [|t0 ts].
+    + split; [reflexivity|]. split; [intros j Hj; cbn in Hj; lia|]. intros H; congruence.
+    + split; [cbn; rewrite euler_rows_length; reflexivity|]. split; [|reflexivity].
+      intros [|j] Hj; cbn [nth]; [reflexivity|]. rewrite E. apply (euler_rows_width d); [exact SP|exact E|cbn in Hj; lia].
+  - split; [apply map_length|]. split.
+    + intros j Hj. rewrite nth_map_const by exact Hj. reflexivity.
+    + destruct ts as [|t0 ts]; [congruence|reflexivity].
 Qed.
 
 (* a solver preserves the linear functional w . x when every row has the value of row 0 *)
@@ -196,16 +205,19 @@ Qed.
 Lemma vsum_smul c a : vsum (smul c a) == c * vsum a.
 Proof. induction a as [|x a IH]; [cbn; ring|]. change (smul c (x :: a)) with ((c * x) :: smul c a). rewrite !vsum_cons, IH. ring. Qed.
 
-(* if the components of the right-hand side sum to zero at every state (the conserve_ theorems of Props/C06.v over the
-   generated right-hand sides), explicit Euler keeps the sum of the components *)
-Lemma euler_preserves_vsum f : shape_preserving f -> (forall x t, vsum (f x t) == 0) -> preserves vsum (euler_solver f).
+(* if the components of the right-hand side sum to zero at every state of dimension d (the conserve_ theorems of
+   Props/C06.v over the generated right-hand sides), explicit Euler keeps the sum of the components *)
+Lemma euler_preserves_vsum d f : shape_preserving d f -> (forall x t, length x = d -> vsum (f x t) == 0) -> preserves vsum (euler_solver d f).
 Proof.
-  intros SP Z x0 ts j Hj. destruct ts as [|t0 ts]; [cbn in Hj; lia|]. cbn [euler_solver].
+  intros SP Z x0 ts j Hj. unfold euler_solver. destruct (Nat.eqb (length x0) d) eqn:E.
+  2:{ rewrite nth_map_const by exact Hj. reflexivity. }
+  apply Nat.eqb_eq in E. destruct ts as [|t0 ts]; [cbn in Hj; lia|].
   destruct j as [|j]; cbn [nth]; [reflexivity|]. cbn in Hj. assert (Hj' : (j < length ts)%nat) by lia. clear Hj.
-  revert x0 t0 j Hj'. induction ts as [|t' ts IH]; intros x0 t0 j Hj; cbn in Hj; [lia|]. cbn [euler_rows].
-  assert (E : vsum (vadd x0 (smul (t' - t0) (f x0 t0))) == vsum x0).
-  { rewrite vsum_vadd by (rewrite smul_length, SP; reflexivity). rewrite vsum_smul, Z. ring. }
-  destruct j as [|j]; cbn [nth]; [exact E|]. rewrite IH by lia. exact E.
+  revert x0 t0 j E Hj'. induction ts as [|t' ts IH]; intros x0 t0 j E Hj; cbn in Hj; [lia|]. cbn [euler_rows].
+  assert (W : length (vadd x0 (smul (t' - t0) (f x0 t0))) = d) by (rewrite vadd_length, smul_length, SP, E by exact E; lia).
+  assert (EQ : vsum (vadd x0 (smul (t' - t0) (f x0 t0))) == vsum x0).
+  { rewrite vsum_vadd by (rewrite smul_length, SP, E by exact E; reflexivity). rewrite vsum_smul, Z by exact E. ring. }
+  destruct j as [|j]; cbn [nth]; [exact EQ|]. rewrite IH by (try exact W; lia). exact EQ.
 Qed.
 
 (* ---------------- list / slice helpers for the per-entry proofs ---------------- *)
